@@ -213,7 +213,7 @@ def _lq_nontrivial(scns):
 
 
 def _lq_models(ctx):
-    inv = ["ResultExact", "NoOpenInPools", "StagesWellFormed"]
+    inv = ["ResultExact", "StagesWellFormed"]
     mcs = [dict(name="lq-2x2", module="MC_LogQuery", consts=dict(MaxRec=2, MaxStages=2, Pools=V.tla_str("quick")), invariants=inv)]
     if ctx.tier != "quick":
         mcs.append(dict(name="lq-2x3", module="MC_LogQuery", consts=dict(MaxRec=2, MaxStages=3, Pools=V.tla_str("quick")), invariants=inv))
@@ -509,3 +509,42 @@ def c15(ctx, replay):
                           "parses the produced bytes; non-trivial = distinct results with >=2 entries or more than 7 containers",
                      assumptions=["the RFC3339Nano text of each distinct timestamp is supplied by time.Format (trusted) with TZ=UTC",
                                   "order of equal timestamps and which palette colour a container gets are left open"])
+
+
+@prop("C06")
+def c06(ctx, replay):
+    inv = ["NeverDropped", "LineUntouched", "MalformedFlagged", "WellFormedNotFlagged", "OthersUntouched", "SomeIsRestriction"]
+    mcs = [dict(name="extract", module="MC_Extract", consts=dict(MaxFields=2, Pools=V.tla_str(T(ctx, "quick", "full"))), invariants=inv, timeout=5400)]
+    return std(ctx, "C06", mc=mcs, harness_cmd="logq", harness_opts=["mode=extract"], trace_module="Trace_LogQuery",
+               trace_consts=dict(CheckStreams=False), nrand=T(ctx, 3000, 40000), replay=replay, nontrivial=_lq_nontrivial, exhaustive=True,
+               chunk_events=20000,
+               rule="step 1: the parser stages on documents - every JSON object of <=2 fields over keys {a, a.b, 1a(, b)} (duplicates "
+                    "included) and values {strings incl. quote, numbers, bool, null, nested object, array}, its reference encoding and every "
+                    "proper prefix of it (malformed), x {json, json a, three path expressions, json a + renamed path, unpack} x {existing "
+                    "label a or not}: never dropped, line unchanged (except unpack/_entry), malformed kept + flagged, other labels "
+                    "untouched, requested field = restriction of full extraction; each case is replayed through Engine.Eval; random "
+                    "driver: nested documents (depth 2), alternative encodings (whitespace, \\\\u escapes; asserted equal with "
+                    "encoding/json), 5 malformed constructions, unpack with shuffled fields, logfmt with quoted values / field lists / "
+                    "renamed keys / malformed lines, pattern with 5 templates; TLC checks count, line and labels of every entry; "
+                    "non-trivial = distinct (records, stage)",
+               assumptions=["text of nested values under json without arguments, labels extracted from the readable prefix of a malformed "
+                            "line, a missing path (absent or empty) and the error details are left open",
+                            "the regexp stage is not modelled yet (named-group submatch semantics); JSON strings in cases avoid control bytes"])
+
+
+@prop("C07")
+def c07(ctx, replay):
+    inv = ["NeverDropped", "RenameMoves", "KeepDropSplit", "FailingTemplate", "LineOnlyByLineStages", "DecolorizeClean"]
+    mcs = [dict(name="rewrite", module="MC_Rewrite", consts=dict(Pools=V.tla_str(T(ctx, "quick", "full"))), invariants=inv)]
+    return std(ctx, "C07", mc=mcs, harness_cmd="logq", harness_opts=["mode=rewrite"], trace_module="Trace_LogQuery",
+               trace_consts=dict(CheckStreams=False), nrand=T(ctx, 3000, 40000), replay=replay, nontrivial=_lq_nontrivial, exhaustive=True,
+               chunk_events=20000,
+               rule="step 1: label_format (renames incl. chains and swaps, templates against one snapshot, failing templates), "
+                    "line_format, drop/keep (plain lists and value matchers, all four operators), decolorize on every label set over "
+                    "{a, b, c} x {absent, '', x, xy}: never dropped, rename moves the value and removes the source, keep X / drop X split "
+                    "the set, failing template leaves the line and flags __error__, decolorize idempotent; every case is replayed on "
+                    "Engine.Eval with the stage written as query text (so which side of = is the source is the parser's choice); random "
+                    "driver: 1-4 records, random templates of <=3 parts, random matcher regexes, SGR sequences at start/middle/end; "
+                    "non-trivial = distinct (records, stage)",
+               assumptions=["a template reading a label assigned in the same stage sees the snapshot taken after the renames",
+                            "only SGR sequences (ESC [ params m) are used in decolorize cases; rename with identical source and target is left open"])
